@@ -50,6 +50,13 @@ Definition is_canonical_at (w : N) (s : bytes) : N :=
 Definition is_canonical_go : bytes -> N := is_canonical_at 8.      (* what vrf.go computes *)
 Definition is_canonical_ref : bytes -> N := is_canonical_at 32.    (* the C original: unsigned int *)
 
+(* the scalar part of ECVRFProve: x (clamped secret scalar), k (nonce) and c (16 challenge bytes) are
+   little-endian byte strings; pi[48:80] = ScMulAdd(c, x, k) = (c*x + k) mod ell, little-endian *)
+Definition ell25519 : N := 2 ^ 252 + 27742317777372353535851937790883648493.
+Definition proof_c (pi : bytes) : bytes := firstn 16 (skipn 32 pi).
+Definition proof_s (pi : bytes) : bytes := skipn 48 pi.
+Definition response (x k c : bytes) : N := (le_val c * le_val x + le_val k) mod ell25519.
+
 End Transport.
 
 (* ------------------------------------------------------------------ *)
